@@ -1,50 +1,217 @@
-"""Functional stand-in: a dict session stored on the request."""
+"""Functional stand-in for aiohttp_session (2.12 semantics that the services rely on).
+
+* Session: a mapping that records whether it was changed (`_changed`), like the real one
+  (every __setitem__ / __delitem__ / pop / clear / update / setdefault-insert / invalidate / changed()).
+* get_session / new_session: use the storage installed on the request by session_middleware
+  (request[STORAGE_KEY]); for harnesses that call handlers without the middleware the old lenient
+  behaviour is kept (a fresh empty session is created on the request).
+* session_middleware(storage): FAITHFUL to the real control flow -- the handler's response *or a
+  raised web.HTTPException* is taken as the response, and if the request's session was changed it is
+  saved onto that response (storage.save_session -> Set-Cookie) BEFORE the exception is re-raised.
+* setup(app, storage): appends the middleware to app.middlewares (as the real one).
+* storages: SimpleCookieStorage (JSON in the cookie, as the real one) and, in cookie_storage,
+  EncryptedCookieStorage as the same thing with an opaque encoding (no cryptography here).
+
+Not modelled: creation timestamps / max_age expiry (Session.created is 0), cookie encryption.
+Deviation kept for backwards compatibility: Session(data=...) takes the flat session dict.
+"""
+import json
+
 SESSION_KEY = 'vf_aiohttp_session'
+STORAGE_KEY = 'vf_aiohttp_session_storage'
 
 
 class Session(dict):
     def __init__(self, identity=None, *, data=None, new=True, max_age=None):
         super().__init__(data or {})
-        self.identity = identity
-        self.new = new
-        self.changed_flag = False
+        self.identity = identity if data else None
+        self.new = new if data else True
+        self.max_age = max_age
+        self.created = 0
+        self._changed = False
+
+    # -- change tracking (the real Session is a MutableMapping over _mapping; every mutator funnels
+    #    through __setitem__ / __delitem__, which set _changed)
+    @property
+    def changed_flag(self):
+        return self._changed
+
+    @changed_flag.setter
+    def changed_flag(self, v):
+        self._changed = bool(v)
+
+    @property
+    def empty(self):
+        return not bool(self)
 
     def changed(self):
-        self.changed_flag = True
+        self._changed = True
 
     def invalidate(self):
-        self.clear()
-        self.changed_flag = True
+        dict.clear(self)
+        self._changed = True
+
+    def set_new_identity(self, identity):
+        if not self.new:
+            raise RuntimeError('Use new_session to create a new session')
+        self.identity = identity
+
+    def __setitem__(self, k, v):
+        dict.__setitem__(self, k, v)
+        self._changed = True
+
+    def __delitem__(self, k):
+        dict.__delitem__(self, k)
+        self._changed = True
+
+    _MISSING = object()
+
+    def pop(self, k, default=_MISSING):
+        if k in self:
+            v = dict.__getitem__(self, k)
+            del self[k]
+            return v
+        if default is Session._MISSING:
+            raise KeyError(k)
+        return default
+
+    def popitem(self):
+        k, v = dict.popitem(self)
+        self._changed = True
+        return k, v
+
+    def clear(self):
+        if self:
+            self._changed = True
+        dict.clear(self)
+
+    def update(self, *a, **k):
+        for key, v in dict(*a, **k).items():
+            self[key] = v
+
+    def setdefault(self, k, default=None):
+        if k not in self:
+            self[k] = default
+        return dict.__getitem__(self, k)
 
 
 async def get_session(request):
     s = request.get(SESSION_KEY)
     if s is None:
-        s = Session(new=True)
+        storage = request.get(STORAGE_KEY)
+        if storage is None:
+            s = Session(new=True)  # lenient: handler driven without the middleware
+        else:
+            s = await storage.load_session(request)
+            if not isinstance(s, Session):
+                raise RuntimeError(f'Installed {storage!r} storage should return session instance on .load_session() call, got {s!r}.')
         request[SESSION_KEY] = s
     return s
 
 
 async def new_session(request):
-    s = Session(new=True)
+    storage = request.get(STORAGE_KEY)
+    if storage is None:
+        s = Session(new=True)
+    else:
+        s = await storage.new_session()
+        if not isinstance(s, Session):
+            raise RuntimeError(f'Installed {storage!r} storage should return session instance on .load_session() call, got {s!r}.')
     request[SESSION_KEY] = s
     return s
-
-
-def setup(app, storage):
-    pass
 
 
 def session_middleware(storage):
     from aiohttp import web
 
-    @web.middleware
-    async def mw(request, handler):
-        return await handler(request)
+    if not isinstance(storage, AbstractStorage):
+        raise RuntimeError(f'Expected AbstractStorage got {storage}')
 
-    return mw
+    @web.middleware
+    async def factory(request, handler):
+        request[STORAGE_KEY] = storage
+        raise_response = False
+        try:
+            response = await handler(request)
+        except web.HTTPException as exc:
+            response = exc
+            raise_response = True
+        if not isinstance(response, (web.StreamResponse, web.HTTPException)):
+            return response  # likely a websocket or a streaming response
+        if response.prepared:
+            raise RuntimeError('Cannot save session data into prepared response')
+        session = request.get(SESSION_KEY)
+        if session is not None:
+            if session._changed:
+                await storage.save_session(request, response, session)
+        if raise_response:
+            raise response
+        return response
+
+    return factory
+
+
+def setup(app, storage):
+    app.middlewares.append(session_middleware(storage))
 
 
 class AbstractStorage:
-    def __init__(self, *a, **k):
-        pass
+    def __init__(self, *a, cookie_name='AIOHTTP_SESSION', domain=None, max_age=None, path='/', secure=None, httponly=True,
+                 samesite=None, encoder=json.dumps, decoder=json.loads, **k):
+        self._cookie_name = cookie_name
+        self._cookie_params = dict(domain=domain, max_age=max_age, path=path, secure=secure, httponly=httponly, samesite=samesite)
+        self._max_age = max_age
+        self._encoder = encoder
+        self._decoder = decoder
+
+    @property
+    def cookie_name(self):
+        return self._cookie_name
+
+    @property
+    def max_age(self):
+        return self._max_age
+
+    async def new_session(self):
+        return Session(None, data=None, new=True, max_age=self.max_age)
+
+    async def load_session(self, request):
+        raise NotImplementedError
+
+    async def save_session(self, request, response, session):
+        raise NotImplementedError
+
+    def load_cookie(self, request):
+        return request.cookies.get(self._cookie_name)
+
+    def save_cookie(self, response, cookie_data, *, max_age=None):
+        params = {k: v for k, v in self._cookie_params.items() if v is not None}
+        if max_age is not None:
+            params['max_age'] = max_age
+        if not cookie_data:
+            response.del_cookie(self._cookie_name, domain=params.get('domain'), path=params.get('path', '/'))
+        else:
+            response.set_cookie(self._cookie_name, cookie_data, **params)
+
+
+class SimpleCookieStorage(AbstractStorage):
+    """JSON session data in the cookie (the real class of the same name does exactly this)."""
+
+    def _dumps(self, session):
+        return self._encoder(dict(session)) if not session.empty else self._encoder({})
+
+    def _loads(self, cookie):
+        return self._decoder(cookie)
+
+    async def load_session(self, request):
+        cookie = self.load_cookie(request)
+        if cookie is None:
+            return Session(None, data=None, new=True, max_age=self.max_age)
+        try:
+            data = self._loads(cookie)
+        except Exception:  # noqa: BLE001  an undecodable cookie is an empty new session (as with a bad Fernet token)
+            return Session(None, data=None, new=True, max_age=self.max_age)
+        return Session(None, data=data, new=False, max_age=self.max_age)
+
+    async def save_session(self, request, response, session):
+        self.save_cookie(response, self._dumps(session), max_age=session.max_age)
